@@ -337,6 +337,10 @@ func runC19(c *core.Ctx) {
 				return
 			}
 			// arguments: (item1, item2, descriptors, 0)
+			if len(call.Call.Args) < 4 {
+				dF = "the comparator does not call the descriptor comparison with (item1, item2, descriptors, 0)"
+				return
+			}
 			argsOK := call.Call.Args[0] == ssa.Value(cl.Params[np-2]) && call.Call.Args[1] == ssa.Value(cl.Params[np-1]) && core.IsIntConst(call.Call.Args[3], 0)
 			descrOK := core.Unwrap(core.Resolve(sbdFV.Outer(call.Call.Args[2]))) == ssa.Value(sbd.Params[0])
 			switch {
